@@ -70,13 +70,25 @@ fn gen_value_refs(rng: &mut Rng, k: usize) -> Pair {
     }
     let t = spell(rng, "Tgt", k, true);
     let nn = spell(rng, "Named", k, true);
-    let form = rng.below(8);
+    let form = rng.below(12);
     let (s, e) = match form {
         0 => (format!("{t} ::= INTEGER (0..{})\n", names[0]), format!("{t} ::= INTEGER (0..{lit})\n")),
         // the reference is the only one of the definition and stands in a later operand / in the lower bound only
         5 => (format!("{t} ::= INTEGER (0..3 | {})\n", names[0]), format!("{t} ::= INTEGER (0..3 | {lit})\n")),
         6 => (format!("{t} ::= OCTET STRING (SIZE (1..2 | {}))\n", names[0]), format!("{t} ::= OCTET STRING (SIZE (1..2 | {lit}))\n")),
         7 => (format!("{t} ::= INTEGER ({}..1000)\n", names[0]), format!("{t} ::= INTEGER ({lit}..1000)\n")),
+        // half-open ranges whose only bound is the reference
+        8 => (format!("{t} ::= INTEGER ({}..MAX)\n", names[0]), format!("{t} ::= INTEGER ({lit}..MAX)\n")),
+        9 => (format!("{t} ::= INTEGER (MIN..{})\n", names[0]), format!("{t} ::= INTEGER (MIN..{lit})\n")),
+        10 => (format!("{t} ::= OCTET STRING (SIZE ({}..MAX))\n", names[0]), format!("{t} ::= OCTET STRING (SIZE ({lit}..MAX))\n")),
+        // a value of a type with named numbers, given by one of them, used as a bound of that type
+        11 => {
+            let vn = spell(rng, "lvl", k, false);
+            (
+                format!("{nn} ::= INTEGER {{ low(1), high({lit}) }}\n{vn} {nn} ::= high\n{t} ::= {nn} (0..{vn})\n"),
+                format!("{nn} ::= INTEGER {{ low(1), high({lit}) }}\n{vn} {nn} ::= high\n{t} ::= {nn} (0..{lit})\n"),
+            )
+        }
         1 => (format!("{t} ::= OCTET STRING (SIZE (1..{}))\n", names[0]), format!("{t} ::= OCTET STRING (SIZE (1..{lit}))\n")),
         2 => {
             let decoy = spell(rng, "Decoy", k, true);
